@@ -61,8 +61,8 @@ static inline int post_verif_sv_default(sv_t ret) { return SV_LEN(ret) == 0UL; }
 static inline int post_verif_sv_sized(unsigned long n, sv_t ret)
 { return sv_inv(ret) && IMPLIES(n <= CAP, SV_LEN(ret) == n && IMPLIES(G_IN(n), SV_AT(ret, g) == 0UL)); }
 
-static inline int post_verif_sv_variadic(unsigned long a, unsigned long b, unsigned long c, sv_t ret)
-{ return SV_LEN(ret) == 3UL && SV_AT(ret, 0) == a && SV_AT(ret, 1) == b && SV_AT(ret, 2) == c; }
+static inline int post_verif_sv_variadic(unsigned long a, unsigned long b, unsigned long c3, sv_t ret)
+{ return SV_LEN(ret) == 3UL && SV_AT(ret, 0) == a && SV_AT(ret, 1) == b && SV_AT(ret, 2) == c3; }
 
 static inline int pre_verif_sv_copy(sv_t v) { return sv_inv(v); }
 static inline int post_verif_sv_copy(sv_t v, sv_t ret) { return SV_SAME(ret, v); }
@@ -184,12 +184,12 @@ static inline int pre_verif_ei_probe_free(ei_t e) { return ei_inv(e); }
 static inline int post_verif_ei_probe_free(ei_t e, eip_t ret) { return EI_PROBE_OK(e, ret); }
 
 /* =============================================================== utl::tuple / utl::tuplev2  ~  std::tuple<size_t,int,size_t> */
-static inline int post_verif_tp_get(unsigned long a, int b, unsigned long c, tpp_t ret) { return ret.e0 == a && ret.e1 == b && ret.e2 == c; }
-static inline int post_verif_tp_copy_get(unsigned long a, int b, unsigned long c, tpp_t ret) { return ret.e0 == a && ret.e1 == b && ret.e2 == c; }
+static inline int post_verif_tp_get(unsigned long a, int b, unsigned long c3, tpp_t ret) { return ret.e0 == a && ret.e1 == b && ret.e2 == c3; }
+static inline int post_verif_tp_copy_get(unsigned long a, int b, unsigned long c3, tpp_t ret) { return ret.e0 == a && ret.e1 == b && ret.e2 == c3; }
 static inline int post_verif_tp_default(tpp_t ret) { return ret.e0 == 0UL && ret.e1 == 0 && ret.e2 == 0UL; }
-static inline int post_verif_tp_write(unsigned long a, int b, unsigned long c, int y, tpp_t ret) { return ret.e0 == a && ret.e1 == y && ret.e2 == c; }
-static inline int post_verif_tp2_get(unsigned long a, int b, unsigned long c, tpp_t ret) { return ret.e0 == a && ret.e1 == b && ret.e2 == c; }
-static inline int post_verif_tp2_copy_write(unsigned long a, int b, unsigned long c, int y, tpp_t ret) { return ret.e0 == a && ret.e1 == y && ret.e2 == c; }
+static inline int post_verif_tp_write(unsigned long a, int b, unsigned long c3, int y, tpp_t ret) { return ret.e0 == a && ret.e1 == y && ret.e2 == c3; }
+static inline int post_verif_tp2_get(unsigned long a, int b, unsigned long c3, tpp_t ret) { return ret.e0 == a && ret.e1 == b && ret.e2 == c3; }
+static inline int post_verif_tp2_copy_write(unsigned long a, int b, unsigned long c3, int y, tpp_t ret) { return ret.e0 == a && ret.e1 == y && ret.e2 == c3; }
 
 /* =============================================================== utl::vector<size_t>  ~  std::vector<size_t>   (heap)
  * The objects live inside the scenario wrappers (constructed, operated on, read back, destroyed); the wrapper parameters are the
@@ -238,4 +238,4 @@ static inline int post_verif_vec_self_assign(unsigned long n, unsigned long i, u
 #define VEC_UNCHANGED(v) ((v)->buffer_ == __CPROVER_old((v)->buffer_) && (v)->buffer_size_ == __CPROVER_old((v)->buffer_size_) && (v)->size_ == __CPROVER_old((v)->size_))
 #endif
 static inline int post_verif_vec_zero_push(unsigned long x, vecp_t ret) { return ret.size == 1UL && ret.at_i == x; }
-static inline int post_verif_vec_variadic(unsigned long a, unsigned long b, unsigned long c, vecp_t ret) { return ret.size == 3UL && ret.at_i == a && ret.size2 == b && ret.at2_i == c; }
+static inline int post_verif_vec_variadic(unsigned long a, unsigned long b, unsigned long c3, vecp_t ret) { return ret.size == 3UL && ret.at_i == a && ret.size2 == b && ret.at2_i == c3; }
